@@ -5,6 +5,8 @@ package main
 // payment callbacks that write/throw/abort) and a committee-signed Policy setter.
 
 import (
+	"fmt"
+
 	"verif/harness/internal/hx"
 	"verif/harness/internal/prng"
 )
@@ -191,7 +193,9 @@ func (g *gen) node(x gx) *Node {
 		fl := g.flags(90)
 		tok := g.r.Chance(1, 3)
 		mk := func(nat *NatOp) *Node { return &Node{Op: nNative, Fl: fl, Nat: nat, Tok: tok} }
-		switch v := g.r.Intn(41); {
+		switch v := g.r.Intn(43); {
+		case v >= 41:
+			return mk(&NatOp{Kind: natSetGas, Val: []int{0, 1, 300000000, 500000000, 999999999, 1000000000, 1000000001}[g.r.Intn(7)]})
 		case v < 3:
 			return mk(&NatOp{Kind: natSetFee, Val: g.r.Range(1, 5000)})
 		case v < 6:
@@ -322,11 +326,82 @@ func treeStats(o *hx.Out, l []*Node, depth int, maxDepth *int, nodes *int) {
 				o.Count([]string{"", "node:policy-setFeePerByte", "node:policy-blockAccount", "node:policy-unblockAccount", "node:management-deploy",
 					"node:management-update", "node:management-destroy", "node:roles-designate", "node:policy-setWhitelistFee", "node:policy-removeWhitelistFee",
 					"node:neo-transfer", "node:neo-vote", "node:neo-registerCandidate", "node:neo-unregisterCandidate", "node:oracle-request",
-					"node:oracle-finish", "node:notary-lockDepositUntil", "node:notary-withdraw"}[n.Nat.Kind])
+					"node:oracle-finish", "node:notary-lockDepositUntil", "node:notary-withdraw", "node:neo-setGasPerBlock"}[n.Nat.Kind])
 				if n.Nat.Kind == natNeoTransfer {
 					treeStats(o, n.Nat.Cb, depth+1, maxDepth, nodes)
 				}
 			}
 		}
+	}
+}
+
+// genDoubleSet generates a whole block of the scenario class "set, then set AGAIN in an execution that is rolled
+// back": for every native setter whose cache update has an "update the existing record in place" path (GasPerBlock
+// records, fee per byte, whitelisted fees, blocked list, candidate record and votes, Notary deposits and their till,
+// contract state) the first set is committed (the caller's own change / a HALTed transaction), the second one runs
+// in a callee that throws under the caller's TRY, in a transaction that FAULTs afterwards, or in a callee whose
+// caller is rolled back as a whole; a last transaction uses the contracts. Cache vs storage vs a restarted node are
+// compared after the block as always.
+func genDoubleSet(r *prng.R, o *hx.Out, height int) []txPlan {
+	c := r.Intn(numContracts)
+	c2 := r.Intn(numContracts)
+	wlC, acc := r.Intn(numContracts), plainAccounts[r.Intn(len(plainAccounts))]
+	type setter struct {
+		name string
+		mk   func(i int) *Node // the i-th set (0 = committed one)
+		same bool              // acts on the executing contract: the callee is the same contract
+	}
+	gasV := []int{300000000, 700000000, 100000000, 900000000}
+	setters := []setter{
+		{"gasPerBlock", func(i int) *Node { return setGas(gasV[(i+r.Intn(2))%4]) }, false},
+		{"feePerByte", func(i int) *Node { return setFee(100+i*37+r.Intn(5), 15) }, false},
+		{"whitelist", func(i int) *Node { return setWl(wlC, 10+i*11+r.Intn(3)) }, false},
+		{"whitelist-remove", func(i int) *Node {
+			if i%2 == 0 {
+				return setWl(wlC, 10+i)
+			}
+			return delWl(wlC)
+		}, false},
+		{"blocked", func(i int) *Node {
+			if i%2 == 0 {
+				return blockAcc(acc, 15)
+			}
+			return unblockAcc(acc, 15)
+		}, false},
+		{"candidate", func(i int) *Node {
+			if i%2 == 0 {
+				return unregCand(1)
+			}
+			return regCand()
+		}, false},
+		{"vote", func(i int) *Node { return vote((i + 1) % 2) }, true},
+		{"deposit", func(i int) *Node { return deposit(minDeposit + i) }, true},
+		{"till", func(i int) *Node { return lockDep(height + 1 + i) }, true},
+		{"nef", func(i int) *Node { return updateNef(1 + i%2) }, true},
+		{"oracle", func(i int) *Node { return oracleReq(i % 2) }, false},
+		{"neo-balance", func(i int) *Node { return neoXfer([]int{6, 7, 0, 1}[r.Intn(4)], 1+i, nil) }, true},
+	}
+	s := setters[r.Intn(len(setters))]
+	if s.same {
+		if s.name == "till" || s.name == "deposit" {
+			c = 2 + r.Intn(2) // the contracts that (mostly) start with a deposit
+		}
+		c2 = c
+	}
+	o.Count("double-set:" + s.name)
+	use := planOf(L(call(2, 15, put(0, 1)), call(wlC, 15, notify(1))))
+	shape := r.Intn(5)
+	o.Count(fmt.Sprintf("double-set-shape:%d", shape))
+	switch shape {
+	case 0: // committed by the caller, set again by a callee that throws under the caller's TRY
+		return []txPlan{planOf(L(call(c, 15, s.mk(0), try(L(call(c2, 15, s.mk(1), s.mk(2), throw())), L(notify(1)), nil), s.mk(3)))), use}
+	case 1: // committed by a HALTed transaction, set again by a transaction that FAULTs afterwards
+		return []txPlan{planOf(L(call(c, 15, s.mk(0)))), planOf(L(call(c, 15, s.mk(1), call(c2, 15, s.mk(2)), abort()))), use}
+	case 2: // the callee completes, then its caller (called under a TRY of ITS caller) throws
+		return []txPlan{planOf(L(call(c, 15, s.mk(0), try(L(call(c2, 15, s.mk(1), call(c, 15, s.mk(2)), throw())), none, L(notify(2))), call(c2, 15, s.mk(3))))), use}
+	case 3: // set again in a TRY of the entry script whose callee throws; and once more, committed
+		return []txPlan{planOf(L(call(c, 15, s.mk(0)), try(L(call(c2, 15, s.mk(1), throw())), none, nil), call(c, 15, s.mk(2)))), use}
+	default: // set twice and committed, then set again by an out-of-try callee of a transaction that throws unhandled
+		return []txPlan{planOf(L(call(c, 15, s.mk(0), s.mk(1)))), planOf(L(call(c, 15, call(c2, 15, s.mk(2)), throw()))), use}
 	}
 }
